@@ -68,6 +68,9 @@ int ldb_rename_file(const char *from, const char *to) {
   g_rename_rc = nondet_int(); if (g_rename_rc == LDB_OK) g_t_rename = tick();
   return g_rename_rc;
 }
+/* not called by the code under test today; a lenient model so that a change that syncs the directory reaches the semantic obligations */
+unsigned g_dirsyncs;
+int ldb_sync_dir(const char *dirname) { g_dirsyncs++; return nondet_int(); }
 int ldb_remove_file(const char *fname) { g_removes++; g_remove_tag = fname[0]; g_t_remove = tick(); return nondet_int(); }
 
 void h_set_current(void) {
